@@ -155,6 +155,16 @@ extern int cs_apply(vnacal_t *vcp, int ci, const cs_scenario *sc,
 extern double cs_apply_error(vnacal_t *vcp, int ci, const cs_scenario *sc,
 	cs_c Sdut[][CS_MAXP * CS_MAXP], int *rc);
 
+/*
+ * cs_terms_residual (oracle/csterms.c): largest relative residual of the
+ * documented M/S matrix equation of vnacal_layout.h over every standard,
+ * frequency and cell, evaluated with the solved error terms of calibration
+ * ci and the physical (noise-free) M and S.  Returns 0, or -1 if the
+ * calibration cannot be inspected.
+ */
+extern int cs_terms_residual(vnacal_t *vcp, int ci, const cs_scenario *sc,
+	long double *worst);
+
 /* can vnacal_apply be used with this shape? */
 extern bool cs_apply_ok(const cs_vna *v);
 
